@@ -22,12 +22,14 @@ def concretise(syms, kcmd=None):
 def kctx(cmd):
     """Context record of spec/TextScan.tla for a command of the table."""
     if cmd is None:
-        return {"name": "", "cps": [], "braced": False, "arg": []}
+        return {"name": "", "cps": [], "braced": False, "arg": [], "unknown": False}
     body = cmd[1:]
+    unknown = cmd not in LATEX          # e.g. a supported command in another letter case
+    cps = [] if unknown else LATEX[cmd]
     if "{" in body:
         name, arg = body.split("{", 1)
-        return {"name": name, "cps": LATEX[cmd], "braced": True, "arg": [ord(c) for c in arg.rstrip("}")]}
-    return {"name": body, "cps": LATEX[cmd], "braced": False, "arg": []}
+        return {"name": name, "cps": cps, "braced": True, "arg": [ord(c) for c in arg.rstrip("}")], "unknown": unknown}
+    return {"name": body, "cps": cps, "braced": False, "arg": [], "unknown": unknown}
 
 
 def norm_events(events):
